@@ -260,6 +260,30 @@ func (s *Sched) Lock(m *simhook.Mutex) {
 	// the scheduler made us the holder before waking us
 }
 
+// TryLock implements simhook.Scheduler: a scheduling point (so that every
+// interleaving in which the lock is or is not free at this instant can be
+// chosen), then an atomic test-and-take.
+func (s *Sched) TryLock(m *simhook.Mutex, shared bool) bool {
+	t := s.cur()
+	if t == nil {
+		return false
+	}
+	s.Park("trylock")
+	s.mu.Lock()
+	defer s.mu.Unlock()
+	li := s.lockName(m)
+	if li.holder != nil || (!shared && li.readers > 0) {
+		return false
+	}
+	if shared {
+		li.readers++
+		return true
+	}
+	li.holder = t
+	t.held = append(t.held, m)
+	return true
+}
+
 // RLock implements simhook.Scheduler (shared acquisition).
 func (s *Sched) RLock(m *simhook.Mutex) {
 	t := s.cur()
